@@ -17,7 +17,7 @@
 EXTENDS IRSem, SequencesExt
 
 GNode(op, k, n, v, ty, par) == [op |-> op, k |-> k, n |-> n, v |-> v, ty |-> ty, par |-> par]
-Hole(p, c, ty, E, A, ag)    == [p |-> p, c |-> c, ty |-> ty, E |-> E, A |-> A, ag |-> ag]
+Hole(p, c, x) == [p |-> p, c |-> c, ty |-> x.ty, E |-> x.E, A |-> x.A, ag |-> x.ag, S |-> x.S, sg |-> x.sg]
 
 (* U: [N, ops, lits, top (free variables, typed by first letter), uniq, streams, roots, lets, arity]
    streams = TRUE : ToStream / ToArray are explicit nodes and "s" is a type of its own;
@@ -28,20 +28,28 @@ NameIdx(U, k)  == IF U.uniq THEN ToString(k) ELSE "0"
 IntNames(U)    == (U.top \cap {"g", "h"}) \cup { "x" \o ToString(i) : i \in 0..U.N } \cup { "c" \o ToString(i) : i \in 0..U.N }
 ArrNames(U)    == (U.top \cap {"a"}) \cup { "a" \o ToString(i) : i \in 0..U.N }
 StructNames(U) == { "r" \o ToString(i) : i \in 0..U.N }
-VarsOfType(U, ty) == CASE ty = "i" -> IntNames(U) [] ty = "a" -> ArrNames(U) [] ty = "r" -> StructNames(U) [] OTHER -> {}
+SiteVars       == {"va", "sa", "row"}          \* the element struct a relational binding site binds (type letter "v")
+SiteField(x)   == CASE x = "va" -> "row_idx" [] x = "sa" -> "col_idx" [] OTHER -> "idx"
+VarsOfType(U, ty) == CASE ty = "i" -> IntNames(U) [] ty = "a" -> ArrNames(U) [] ty = "r" -> StructNames(U) [] ty = "v" -> SiteVars [] OTHER -> {}
 LetLetter(ty) == CASE ty = "i" -> "x" [] ty = "a" -> "a" [] OTHER -> "r"
 
 (* candidate new nodes for a hole h when the new node gets index k:
-   records [op, n, v, ch] where ch is the sequence of child hole contexts [ty, E, A, ag]        *)
-Ctx(ty, E, A, ag) == [ty |-> ty, E |-> E, A |-> A, ag |-> ag]
+   records [op, n, v, ch] where ch is the sequence of child hole contexts [ty, E, A, ag, S, sg]
+   (E / A / S = the variables in the eval / agg / scan scope, ag / sg = whether that scope exists).
+   The generator follows the PYTHON view of promotion (inside an aggregator or scan argument there is
+   neither an agg nor a scan scope), which is a subset of what the engine's rules admit.          *)
+Ctx6(ty, E, A, ag, S, sg) == [ty |-> ty, E |-> E, A |-> A, ag |-> ag, S |-> S, sg |-> sg]
 
 Cands(U, h, k) ==
-  LET E == h.E  A == h.A  ag == h.ag  ty == h.ty
+  LET E == h.E  A == h.A  ag == h.ag  ty == h.ty  S == h.S  sg == h.sg
+      Ctx(t, e, a, g) == Ctx6(t, e, a, g, S, sg)        \* scan scope unchanged
       same(t)   == Ctx(t, E, A, ag)
       withE(t, xs) == Ctx(t, E \cup xs, A, ag)
-      prom(t)   == Ctx(t, A, {}, FALSE)                 \* promoted: agg env becomes the eval env
+      prom(t)   == Ctx6(t, A, {}, FALSE, {}, FALSE)     \* promoted: agg env becomes the eval env
+      promS(t)  == Ctx6(t, S, {}, FALSE, {}, FALSE)     \* promoted: scan env becomes the eval env
       withA(t, xs) == Ctx(t, E, A \cup xs, ag)
-      S == IF U.streams THEN "s" ELSE "a"               \* the type of a stream-valued position
+      withS(t, xs) == Ctx6(t, E, A, ag, S \cup xs, sg)
+      SS == IF U.streams THEN "s" ELSE "a"              \* the type of a stream-valued position
       x == "x" \o NameIdx(U, k)
       c == "c" \o NameIdx(U, k)
       C(op, n, v, ch) == [op |-> op, n |-> n, v |-> v, ch |-> ch]
@@ -53,10 +61,12 @@ Cands(U, h, k) ==
         \cup (IF on("Let") THEN { C("Let", <<LetLetter(vt) \o NameIdx(U, k)>>, 0,
                                     <<same(vt), withE(ty, {LetLetter(vt) \o NameIdx(U, k)})>>) : vt \in U.lets } ELSE {})
         \cup (IF on("StreamAgg") /\ ty \in {"i", "a"}
-              THEN { C("StreamAgg", <<x>>, 0, <<same(S), Ctx(ty, E, E \cup {x}, TRUE)>>) } ELSE {})
+              THEN { C("StreamAgg", <<x>>, 0, <<same(SS), Ctx6(ty, E, E \cup {x}, TRUE, {}, FALSE)>>) } ELSE {})
+        \cup (IF sg /\ on("ScanFilter") THEN { C("ScanFilter", <<>>, 0, <<promS("b"), same(ty)>>) } ELSE {})
+        \cup (IF sg /\ on("ScanLet") THEN { C("ScanLet", <<x>>, 0, <<promS("i"), withS(ty, {x})>>) } ELSE {})
         \cup (IF ag /\ on("AggFilter") THEN { C("AggFilter", <<>>, 0, <<prom("b"), same(ty)>>) } ELSE {})
         \cup (IF ag /\ on("AggLet") THEN { C("AggLet", <<x>>, 0, <<prom("i"), withA(ty, {x})>>) } ELSE {})
-        \cup (IF ag /\ on("AggExplode") THEN { C("AggExplode", <<x>>, 0, <<prom(S), withA(ty, {x})>>) } ELSE {})
+        \cup (IF ag /\ on("AggExplode") THEN { C("AggExplode", <<x>>, 0, <<prom(SS), withA(ty, {x})>>) } ELSE {})
       byType ==
         CASE ty = "i" ->
                { C("I32", <<>>, v, <<>>) : v \in U.lits }
@@ -64,29 +74,37 @@ Cands(U, h, k) ==
                \cup { C(op, <<>>, 0, <<same("i"), same("i")>>) : op \in (ArithOps \cap U.ops) }
                \cup (IF on("ArrayLen") THEN { C("ArrayLen", <<>>, 0, <<same("a")>>) } ELSE {})
                \cup (IF on("StreamFold")
-                     THEN { C("StreamFold", <<c, x>>, 0, <<same(S), same("i"), withE("i", {c, x})>>) } ELSE {})
+                     THEN { C("StreamFold", <<c, x>>, 0, <<same(SS), same("i"), withE("i", {c, x})>>) } ELSE {})
                \cup (IF on("GetField") THEN { C("GetField", <<f>>, 0, <<same("r")>>) : f \in {"p", "q"} } ELSE {})
                \cup (IF ag /\ on("AggSum") THEN { C("AggSum", <<>>, 0, <<prom("i")>>) } ELSE {})
                \cup (IF ag /\ on("AggCount") THEN { C("AggCount", <<>>, 0, <<>>) } ELSE {})
+               \cup (IF sg /\ on("ScanSum") THEN { C("ScanSum", <<>>, 0, <<promS("i")>>) } ELSE {})
+               \cup (IF sg /\ on("ScanCount") THEN { C("ScanCount", <<>>, 0, <<>>) } ELSE {})
+               \cup (IF on("SiteField") THEN { C("GetField", <<SiteField(y)>>, 0, <<same("v")>>) : y \in (E \cap SiteVars) } ELSE {})
           [] ty = "b" ->
                { C(op, <<>>, 0, <<same("i"), same("i")>>) : op \in (CmpOps \cap U.ops) }
                \cup (IF on("True") THEN { C("True", <<>>, 0, <<>>) } ELSE {})
           [] ty = "a" ->
                (IF on("MakeArray") THEN { C("MakeArray", <<>>, 0, [i \in 1..m |-> same("i")]) : m \in U.arity } ELSE {})
                \cup (IF U.streams /\ on("ToArray") THEN { C("ToArray", <<>>, 0, <<same("s")>>) } ELSE {})
+               \cup (IF ~U.streams /\ on("StreamAggScan")
+                     THEN { C("StreamAggScan", <<x>>, 0, <<same("a"), Ctx6("i", E \cup {x}, {}, FALSE, E \cup {x}, TRUE)>>) } ELSE {})
                \cup (IF ~U.streams /\ on("StreamMap") THEN { C("StreamMap", <<x>>, 0, <<same("a"), withE("i", {x})>>) } ELSE {})
                \cup (IF ~U.streams /\ on("StreamFilter") THEN { C("StreamFilter", <<x>>, 0, <<same("a"), withE("b", {x})>>) } ELSE {})
                \cup (IF ag /\ on("AggCollect") THEN { C("AggCollect", <<>>, 0, <<prom("i")>>) } ELSE {})
+               \cup (IF sg /\ on("ScanCollect") THEN { C("ScanCollect", <<>>, 0, <<promS("i")>>) } ELSE {})
           [] ty = "s" ->
                (IF on("ToStream") THEN { C("ToStream", <<>>, 0, <<same("a")>>) } ELSE {})
                \cup (IF on("StreamMap") THEN { C("StreamMap", <<x>>, 0, <<same("s"), withE("i", {x})>>) } ELSE {})
                \cup (IF on("StreamFilter") THEN { C("StreamFilter", <<x>>, 0, <<same("s"), withE("b", {x})>>) } ELSE {})
+               \cup (IF on("StreamAggScan")
+                     THEN { C("StreamAggScan", <<x>>, 0, <<same("s"), Ctx6("i", E \cup {x}, {}, FALSE, E \cup {x}, TRUE)>>) } ELSE {})
           [] ty = "r" ->
                (IF on("MakeStruct") THEN { C("MakeStruct", <<"p", "q">>, 0, <<same("i"), same("i")>>) } ELSE {})
                \cup (IF on("InsertFields") THEN { C("InsertFields", <<"q">>, 0, <<same("r"), same("i")>>) } ELSE {})
                \cup (IF on("SelectFields") THEN { C("SelectFields", <<"p", "q">>, 0, <<same("r")>>) } ELSE {})
-          [] OTHER -> {}
-  IN generic \cup byType
+          [] OTHER -> {}      \* "v": only the generic Ref
+  IN (IF ty = "v" THEN { C("Ref", <<y>>, 0, <<>>) : y \in (E \cap SiteVars) } ELSE generic) \cup byType
 
 
 RECURSIVE Ancestors(_, _)
@@ -105,16 +123,24 @@ Succ(U, P) ==
                        /\ j \notin open
                        /\ P.nodes[j].ty = h.ty
                        /\ P.nodes[j].op # "Ref"
-                       /\ Problems(P.nodes, j, h.E, h.A, h.ag, {}) = {} }
+                       /\ ProblemsC(P.nodes, j, BCtx(h.E, h.A, h.ag, h.S, h.sg, {})) = {} }
       fresh == IF k > U.N THEN {} ELSE
                { [nodes |-> Append(SetChild(P.nodes, h.p, h.c, k),
                                    GNode(cd.op, [i \in 1..Len(cd.ch) |-> 0], cd.n, cd.v, h.ty, h.p)),
-                  holes |-> [i \in 1..Len(cd.ch) |-> Hole(k, i, cd.ch[i].ty, cd.ch[i].E, cd.ch[i].A, cd.ch[i].ag)] \o rest,
+                  holes |-> [i \in 1..Len(cd.ch) |-> Hole(k, i, cd.ch[i])] \o rest,
                   sh |-> P.sh]
                  : cd \in Cands(U, h, k) }
   IN fresh \cup { [nodes |-> SetChild(P.nodes, h.p, h.c, j), holes |-> rest, sh |-> TRUE] : j \in shareable }
 
-Start(U, ty) == [nodes |-> <<>>, holes |-> <<Hole(0, 0, ty, U.top, {}, FALSE)>>, sh |-> FALSE]
+(* a root is a type letter (a value expression over the free variables U.top) or a relational binding site
+   "mrows" / "mcols" / "trows": node 1 is the Site, its new-row expression sees only the site's variables *)
+SiteVar(kind) == CASE kind = "mrows" -> "va" [] kind = "mcols" -> "sa" [] OTHER -> "row"
+Start(U, r) ==
+  IF r \in {"mrows", "mcols", "trows"}
+  THEN [nodes |-> <<GNode("Site", <<0>>, <<r>>, 0, "a", 0)>>,
+        holes |-> <<Hole(1, 1, Ctx6("i", {SiteVar(r)}, IF r = "trows" THEN {} ELSE {SiteVar(r)}, r # "trows", {SiteVar(r)}, TRUE))>>,
+        sh |-> FALSE]
+  ELSE [nodes |-> <<>>, holes |-> <<Hole(0, 0, Ctx6(r, U.top, {}, FALSE, {}, FALSE))>>, sh |-> FALSE]
 
 (* all finished DAGs reachable from P, as a sequence (every DAG is reached exactly once: node
    numbering is the depth-first pre-order, so no two fill sequences give the same table);
@@ -140,15 +166,22 @@ Profile(name) ==
     [] name = "struct" -> {"Add", "MakeStruct", "GetField", "InsertFields", "SelectFields", "Let", "If", "LT"}
     [] name = "agg"    -> {"Add", "LT", "StreamAgg", "AggSum", "AggCount", "AggFilter", "AggLet", "Let"}
     [] name = "aggmap" -> {"Add", "StreamMap", "StreamAgg", "AggSum", "AggFilter", "LT", "AggExplode", "AggCollect", "MakeArray"}
+    [] name = "aggscan" -> {"Add", "SiteField", "AggSum", "ScanSum", "ScanCount"}          \* root: MatrixMapRows (agg AND scan scope)
+    [] name = "colscan" -> {"Add", "SiteField", "AggSum", "ScanSum", "ScanCount"}          \* root: MatrixMapCols
+    [] name = "tscan"   -> {"Add", "LT", "SiteField", "ScanSum", "ScanCount", "ScanFilter", "ScanLet", "Let"}   \* root: TableMapRows
+    [] name = "ascan"   -> {"Add", "StreamAggScan", "ScanSum", "ScanCount", "StreamMap", "StreamAgg", "AggSum", "ArrayLen"}   \* value-IR scan sites
+    [] name = "xscan"   -> {"Add", "ToStream", "ToArray", "StreamAggScan", "ScanCollect", "ScanCount", "ScanLet", "ScanFilter", "LT", "ArrayLen", "StreamMap"}
     [] name = "all"    -> {"Add", "Sub", "Mul", "LT", "EQ", "NA", "True", "If", "Let", "MakeArray", "ArrayLen",
                            "StreamMap", "StreamFilter", "StreamFold", "MakeStruct", "GetField", "InsertFields", "SelectFields",
                            "StreamAgg", "AggSum", "AggCount", "AggCollect", "AggFilter", "AggLet", "AggExplode"}
     [] OTHER -> {}
 
 Universe(profile, n, uniq) ==
-  [N |-> n, ops |-> Profile(profile), lits |-> {2}, uniq |-> uniq, streams |-> profile \in {"xstream", "xagg"},
-   top |-> IF profile = "ifadd" THEN {} ELSE IF profile \in {"arith", "struct"} THEN {"g"} ELSE {"g", "a"},
-   roots |-> IF profile = "struct" THEN {"i", "r"} ELSE IF profile \in {"stream", "xstream", "xagg", "aggmap", "all"} THEN {"i", "a"} ELSE {"i"},
+  [N |-> n, ops |-> Profile(profile), lits |-> IF profile \in {"aggscan", "colscan"} THEN {} ELSE {2}, uniq |-> uniq,
+   streams |-> profile \in {"xstream", "xagg", "xscan"},
+   top |-> IF profile = "ifadd" THEN {} ELSE IF profile \in {"arith", "struct"} THEN {"g"} ELSE IF profile \in {"ascan", "xscan"} THEN {"a"} ELSE {"g", "a"},
+   roots |-> IF profile = "aggscan" THEN {"mrows"} ELSE IF profile = "colscan" THEN {"mcols"} ELSE IF profile = "tscan" THEN {"trows"}
+             ELSE IF profile \in {"ascan", "xscan"} THEN {"i", "a"} ELSE IF profile = "struct" THEN {"i", "r"} ELSE IF profile \in {"stream", "xstream", "xagg", "aggmap", "all"} THEN {"i", "a"} ELSE {"i"},
    lets |-> IF profile = "struct" THEN {"i", "r"} ELSE IF profile \in {"stream", "xstream"} THEN {"i", "a"} ELSE {"i"},
    arity |-> {1, 2}]
 =============================================================================
